@@ -19,7 +19,7 @@ Each change must be a small patch that a plausible refactoring, optimisation or 
   (d) needs something specific to manifest — a particular interleaving or order of operations, a multi-step sequence, an unusual but legal input (boundary value, tie, prefix, empty case, non-ASCII), a fault at a particular point, or two cooperating sites that each look fine alone — NOT something ordinary use would expose at once.
 If one of the listed files offers no realistic candidate, say so and use a closely related file instead.
 
-For each change write a demonstration: a small Rust integration test file (in the crate the change belongs to, e.g. {wt}/des/tests/mut_demo.rs) or a tiny example program that uses only the crates' public API, which FAILS WITH the change and PASSES WITHOUT it. Verify both directions yourself (git stash / git checkout inside your worktree only). Also confirm (a) and (b) with the change applied (without your demo file, which is not part of the patch).
+For each change write a demonstration: a small Rust integration test file (in the crate the change belongs to, e.g. {wt}/des/tests/mut_demo.rs) or a tiny example program that uses only the crates' public API, which FAILS WITH the change and PASSES WITHOUT it. Verify both directions yourself (inside your worktree only; do NOT use `git stash` — the stash is shared by all worktrees; use `git diff > x.diff`, `git apply -R x.diff`, `git apply x.diff`). Also confirm (a) and (b) with the change applied (without your demo file, which is not part of the patch).
 
 Deliverables (under {wt}/out/): for i = 1..2: `m{{i}}.diff` (`git diff` of ONLY the source change relative to HEAD, applicable with `git apply` from the repository root), `m{{i}}_demo.rs` (comment on top: where to put it, how to run it), `m{{i}}.json` with fields {{"property": "<Cxx it breaks>", "summary": one sentence what was changed, "why_it_breaks": ..., "needs": what specific condition is needed, "files": [...], "demo_cmd": exact command to run the demo (a plain shell command line, no parenthetical remarks), "verified": {{"compiles": true/false, "tests_pass": "N/221", "demo_fails_with_change": true/false, "demo_passes_without": true/false}}}}. Keep the worktree in place when you finish but delete its build output: rm -rf {wt}/target.
 
